@@ -98,6 +98,45 @@ def check(prop, tier, seed):
     return out
 
 
+def selftest():
+    """binding demonstration: one corrupted field of a recorded varint event must be reported by TraceVarint"""
+    hb = C.build_harness("default", ["varint"])["varint"]
+    work = os.path.join(C.WORK, "varint")
+    os.makedirs(work, exist_ok=True)
+    base = os.path.join(work, "selftest-%d.ndjson" % os.getpid())
+    C.run([hb, "record", "--seed", "4242", "--n", "200", "--out", base], timeout=600)
+    lines = [json.loads(l) for l in open(base)]
+    os.remove(base)
+
+    def validate(evs, tag):
+        p = os.path.join(work, "selftest-%s-%d.ndjson" % (tag, os.getpid()))
+        with open(p, "w") as f:
+            for e in evs:
+                f.write(json.dumps(e, separators=(",", ":")) + "\n")
+        res = C.run_tlc("TraceVarint", workers=1, env={"TRACE": p}, deque=True, timeout=900, name="TraceVarint-selftest")
+        os.remove(p)
+        done = res.tagged("TRACE-DONE")
+        return {"consumed": bool(done) and done[-1]["lines"] == len(evs), "mismatches": len(res.tagged("MISMATCH"))}
+    rep = {"unmodified": validate(lines, "base")}
+    ok = rep["unmodified"]["consumed"] and rep["unmodified"]["mismatches"] == 0
+    i = next(j for j, e in enumerate(lines) if e["ev"] == "enc" and len(e["out"]) >= 2)
+    m = json.loads(json.dumps(lines))
+    m[i]["out"][-1] ^= 1
+    rep["enc.out bit flipped"] = validate(m, "enc")
+    ok = ok and rep["enc.out bit flipped"]["mismatches"] == 1
+    i = next(j for j, e in enumerate(lines) if e["ev"] == "dec" and e.get("ok"))
+    m = json.loads(json.dumps(lines))
+    m[i]["used"] += 1
+    rep["dec.used+1"] = validate(m, "dec")
+    ok = ok and rep["dec.used+1"]["mismatches"] == 1
+    m = json.loads(json.dumps(lines))
+    m[i]["ok"] = False
+    rep["dec.ok flipped"] = validate(m, "acc")
+    ok = ok and rep["dec.ok flipped"]["mismatches"] == 1
+    rep["ok"] = bool(ok)
+    return rep
+
+
 def replay(rp):
     # re-run the whole quick check; a replay file documents the failing case
     o = check(rp["property"], "quick", rp.get("seed", 1))
